@@ -2518,6 +2518,10 @@ class ProvDocument(ProvBundle):
                     "WARNING: not saving as location " + "is not a local file reference"
                 )
                 return
+            if scheme != "file":
+                # a local file name, to be used as it is: '#', '?', ';' and ':'
+                # are ordinary characters in file names, not URL syntax
+                path = location
             fd, name = tempfile.mkstemp()
             stream = os.fdopen(fd, "wb")
             serializer.serialize(stream, **args)
